@@ -752,6 +752,30 @@ def evaluate(text, order, names):
     return q, r, fc, ty
 
 
+EQUILIBRATE_LATTICE = [{"scale": 1.0}, {"scale": 1.25}, {"scale": 2.0},
+                       {"damp": 0.25}, {"damp": 1.0}, {"num_cycles": 1},
+                       {"num_cycles": 12}, {"scale": 1.3, "damp": 0.7}]
+
+
+def equilibrate_total(text, kw):
+    """Sum of the charges after peoe.equilibrate(atoms, **kw) on the molecule
+    read from `text` (charges preset to the formal charges, as
+    assign_charges does)."""
+    from pdb2pqr.ligand import peoe
+    from pdb2pqr.ligand.mol2 import Mol2Molecule
+
+    m = Mol2Molecule()
+    m.read(io.StringIO(text))
+    atoms = list(m.atoms.values())
+    for a in atoms:
+        a.charge = a.formal_charge
+    try:
+        peoe.equilibrate(atoms, **kw)
+    except (KeyError, IndexError, ValueError):
+        return None
+    return math.fsum(a.charge for a in atoms)
+
+
 def automorphic(mol, q0, q1, budget=200000):
     """True if some automorphism s of the typed labelled graph has
     q1[i] == q0[s(i)] for all i; None if the search budget ran out."""
@@ -911,6 +935,23 @@ def check_molecule(spec, rec, only=None, chunk=(0, 1), stride=1,
             {"molecule": mol.label, "sum_charges": total_q,
              "sum_formal_impl": total_code, "sum_formal_ref": total_mine,
              "mol2": write_mol2(mol, ident, names_by[base_naming])}, case0)
+    # the equilibration itself with every scaling / damping / cycle count of
+    # a small lattice: whatever its parameters, it only redistributes charge
+    if abs(total_code) > TOL or mol.orig_names:
+        text0 = write_mol2(mol, ident, names_by[base_naming])
+        for kw in EQUILIBRATE_LATTICE:
+            tot = equilibrate_total(text0, kw)
+            rec.res["evals"] += 1
+            if tot is None:
+                continue
+            if abs(tot - total_code) > 1e-6:
+                tagk = ",".join(f"{k}={v}" for k, v in sorted(kw.items()))
+                rec.violation(
+                    f"C16/conservation/equilibrate({tagk})/{cls}",
+                    {"molecule": mol.label, "sum_charges": tot,
+                     "sum_formal_impl": total_code, "mol2": text0}, case0)
+            else:
+                rec.event("equilibrate-parameters-conserve-charge")
     if abs(total_q - total_mine) > TOL and abs(total_q - total_code) <= TOL:
         diffs = sorted({
             f"{mol.types[i]}:bonds={'.'.join(sorted(mol.labs(i)))}"
@@ -1267,6 +1308,10 @@ def check_complex_cell(case, rec):
     extras = list(case["extras"])
     ff = case["ff"]
     opts = [f"--ff={ff}"]
+    if case.get("pka"):
+        # the pKa route strips and rebuilds the polymer's hydrogens before
+        # the ligand is parameterised: the ligand must come out the same
+        opts += ["--titration-state-method=propka", "--with-ph=7"]
     lig_res = case.get("lig_resname", "LIG")
     copies = case.get("copies", 1)
     lig_seqs = {LIG_SEQ + c for c in range(copies)}
@@ -1302,7 +1347,8 @@ def check_complex_cell(case, rec):
                 names = make_names(mol, naming)
             one = {"mode": "complex", "ff": ff, "extras": extras,
                    "ligands": [lig], "namings": [naming]}
-            for k in ("mol2_resname", "lig_resname", "copies", "serial0"):
+            for k in ("mol2_resname", "lig_resname", "copies", "serial0",
+                      "pka"):
                 if k in case:
                     one[k] = case[k]
             tag = f"{naming}"
@@ -1336,7 +1382,8 @@ def check_complex_cell(case, rec):
             rec.res["evals"] += 1
             rec.res["nontrivial"].append(
                 f"complex:{ff}:{lig}:{naming}:{'+'.join(extras) or 'none'}"
-                f":{lig_res}x{copies}:{case.get('mol2_resname', '=')}")
+                f":{lig_res}x{copies}:{case.get('mol2_resname', '=')}"
+                + (":pka" if case.get("pka") else ""))
             detail = {"ligand": lig, "naming": naming, "extras": extras,
                       "ff": ff, "ligand_atom_names": names}
             # which non-ligand atoms carry parameters they do not carry in
@@ -1620,6 +1667,15 @@ def enumerate_cases(tier, seed):
         cases.append({"mode": "complex", "ff": "AMBER", "extras": ex,
                       "ligands": ["methanol", "acetate"],
                       "namings": ["elem-index", "private"], "serial0": 0})
+    # the same complexes through the pKa route
+    for ex in ([], ["W1"], ["W1", "XYZ", "ZN"]):
+        for ff in ("AMBER", "PARSE"):
+            cases.append({"mode": "complex", "ff": ff, "extras": ex,
+                          # bundled ligands only: PROPKA inspects the
+                          # ligand's geometry, and the grammar molecules
+                          # are laid out schematically (collinear atoms)
+                          "ligands": ["ethanol.mol2", "acetate.mol2"],
+                          "namings": ["elem-index", "private"], "pka": True})
     for ff, entry in FF_HETERO_ENTRIES:
         for ex in ([], ["W1"], ["W1", "XYQ"]):
             cases.append({"mode": "complex", "ff": ff, "extras": ex,
